@@ -26,6 +26,8 @@ let () = Reg.register "c01.validate" (fun inp _ ->
     let ((_, _, _, _, finals, nstates) as t) = get_tables tables in
     let m = machine_of g.Cfg.g_terms t in
     let r = int_of_z (CertGen.validate g m nstates finals fuel_cert) in
+    (* clause 15: the liveness validator (correct-prefix property, C01_error_not_early) *)
+    let r = if r = 0 && not (CertGen.validate_live g nstates fuel_cert) then 15 else r in
     ((if r = 0 then A "validated" else L [A "rejected-clause"; put_int r]), "ok")
   | _ -> failwith "c01.validate")
 
@@ -81,6 +83,8 @@ let () = Reg.register "c01.tables" (fun inp _ ->
     let ((_, _, _, _, finals, nstates) as t) = get_tables tables in
     let m = machine_of g.Cfg.g_terms t in
     let r = int_of_z (CertGen.validate g m nstates finals fuel_cert) in
+    (* clause 15: the liveness validator (correct-prefix property, C01_error_not_early) *)
+    let r = if r = 0 && not (CertGen.validate_live g nstates fuel_cert) then 15 else r in
     let verdict = ref "ok" in
     Stdlib.List.iter (fun b -> match lst b with
       | [idx; strs] ->
